@@ -37,6 +37,8 @@ type dispCase struct {
 	frac     float64
 	ack      string // immediate | delayed | hold-all | newest-first
 	resume   bool   // answer ResumeRequests with a report (bitmap of chunks "already present")
+	verify   bool   // ... whose highest chunk may come with a hash that fails the sender\'s verification
+	tail     int    // the sender\'s ResumeVerifyTail
 	quicLike bool
 }
 
@@ -57,6 +59,7 @@ type dispOutcome struct {
 	frames   []dispFrame
 	endMark  map[uint64]map[uint64]int64 // key -> bytes the sender had written per stream (by stream id) when its FileEnd was read
 	reported map[uint64][]byte           // key -> bitmap reported as present
+	verified map[uint64]uint32           // key -> chunk reported as last verified WITH A WRONG HASH (must be sent again)
 	problems []string
 }
 
@@ -107,12 +110,12 @@ func runDispCase(base string, c dispCase, rng *hx.Rand) (dispOutcome, map[uint64
 			}
 		}
 	}
-	out := dispOutcome{endMark: map[uint64]map[uint64]int64{}, reported: map[uint64][]byte{}}
+	out := dispOutcome{endMark: map[uint64]map[uint64]int64{}, reported: map[uint64][]byte{}, verified: map[uint64]uint32{}}
 	a, b := memnet.Pair(memnet.Mode{VisibleAtOpen: !c.quicLike})
 	ctx, cancel := context.WithCancel(context.Background())
 	defer cancel()
 	so := transfer.Options{ChunkSize: uint32(c.cs), ParallelFiles: c.streams, Resume: c.resume, HashAlg: "crc32c",
-		SmallThreshold: c.smallT, MediumThreshold: c.medT, SmallSlotFrac: c.frac}
+		SmallThreshold: c.smallT, MediumThreshold: c.medT, SmallSlotFrac: c.frac, ResumeVerifyTail: uint32(c.tail)}
 	ret := make(chan error, 1)
 	go func() { ret <- transfer.SendManifestMultiStream(ctx, tconn{a}, src, m, so) }()
 
@@ -290,11 +293,30 @@ func runDispCase(base string, c dispCase, rng *hx.Rand) (dispOutcome, map[uint64
 						bm[i/8] |= 1 << (i % 8)
 					}
 				}
+				info := transfer.FileResumeInfo{FileID: rq.FileID, StreamID: rq.StreamID, TotalChunks: total, Bitmap: bm, LastVerifiedChunk: total}
+				if pick(3) == 0 { // everything is reported present
+					for i := uint32(0); i < total; i++ {
+						bm[i/8] |= 1 << (i % 8)
+					}
+				}
+				// the highest reported chunk may come with a hash that cannot be the sender's: the
+				// verification fails and that chunk has to be sent again (LastVerifiedChunk =
+				// total means "nothing to verify")
+				hi := -1
+				for i := uint32(0); i < total; i++ {
+					if bm[i/8]&(1<<(i%8)) != 0 {
+						hi = int(i)
+					}
+				}
 				mu.Lock()
 				out.reported[rq.StreamID] = bm
+				if hi >= 0 && c.verify && pick(2) == 0 {
+					info.LastVerifiedChunk = uint32(hi)
+					info.LastVerifiedHash = 0x0123456789abcdef
+					out.verified[rq.StreamID] = uint32(hi)
+				}
 				mu.Unlock()
-				// nothing to verify by hash: LastVerifiedChunk = total means "no verified chunk"
-				send(transfer.FileResumeInfo{FileID: rq.FileID, StreamID: rq.StreamID, TotalChunks: total, Bitmap: bm, LastVerifiedChunk: total})
+				send(info)
 			case transfer.VerifTypeFileEnd:
 				key := msg.(transfer.FileEnd).StreamID
 				// what the SENDER had written into each of its streams by now (at least
@@ -371,7 +393,7 @@ func runC17e2e(cfg config, rep *hx.Report) {
 	hangs := 0
 	for i := 0; i < n; i++ {
 		c := dispCase{id: 700000 + i, nfiles: rng.Pick(0, 1, 2, 3, 5, 8, 12), cs: rng.Pick(1, 3, 8, 64), streams: 1 + rng.Intn(4),
-			ack: []string{"immediate", "delayed", "hold-all", "newest-first"}[rng.Intn(4)], resume: rng.Intn(3) == 0, quicLike: rng.Bool()}
+			ack: []string{"immediate", "delayed", "hold-all", "newest-first"}[rng.Intn(4)], resume: rng.Intn(3) == 0, quicLike: rng.Bool(), verify: rng.Bool(), tail: rng.Pick(0, 1, 1, 2)}
 		// thresholds relative to the file sizes (0..5*cs+1) so that all three classes and the small-slot quota occur
 		switch rng.Intn(4) {
 		case 0: // defaults: everything is "small"
@@ -445,6 +467,17 @@ func runC17e2e(cfg config, rep *hx.Report) {
 			for idx := uint32(0); idx < total; idx++ {
 				cnt := sent[k][idx]
 				present := bm != nil && bm[idx/8]&(1<<(idx%8)) != 0
+				if vc, failed := o.verified[k]; failed && vc == idx {
+					// the chunk that failed verification: once by the re-send, and at most once
+					// more if the main pass sends it anyway (it lies in the forced tail)
+					if cnt == 0 {
+						viol("failed-verification-not-resent", fmt.Sprintf("%s: the receiver reported chunk %d with a hash the sender's cannot equal, yet it was never sent again (verify tail %d)", it.RelPath, idx, c.tail))
+					}
+					if cnt > 2 {
+						viol("chunk-sent-twice", fmt.Sprintf("%s chunk %d (failed verification) sent %d times", it.RelPath, idx, cnt))
+					}
+					continue
+				}
 				if cnt > 1 {
 					viol("chunk-sent-twice", fmt.Sprintf("%s chunk %d sent %d times", it.RelPath, idx, cnt))
 				}
